@@ -14,6 +14,47 @@ from datetime import date, datetime
 REGEX_TYPE = type(re.compile(""))
 
 
+def formatNumber(value):
+    """
+    Convert a number to a string suitable for use in a Gcode command.
+
+    The result is the same as str(value), except that exponent notation (e.g. "1e-05"), which
+    Gcode interpreters do not understand, is expanded to plain decimal notation ("0.00001").
+
+    Parameters
+    ----------
+    value : float | int
+        The number to format
+
+    Returns
+    -------
+    string
+        The number in plain decimal notation.
+    """
+    text = str(value)
+    mantissa, separator, exponent = text.lower().partition("e")
+    if (not separator):
+        return text
+
+    sign = ""
+    if (mantissa[0] in "+-"):
+        if (mantissa[0] == "-"):
+            sign = "-"
+        mantissa = mantissa[1:]
+
+    intPart, separator, fracPart = mantissa.partition(".")
+    digits = intPart + fracPart
+    pointIndex = len(intPart) + int(exponent)
+
+    if (pointIndex <= 0):
+        return sign + "0." + ("0" * -pointIndex) + digits
+
+    if (pointIndex >= len(digits)):
+        return sign + digits + ("0" * (pointIndex - len(digits)))
+
+    return sign + digits[:pointIndex] + "." + digits[pointIndex:]
+
+
 class JsonEncoder(json.JSONEncoder):
     """JSON encoder with logic for objects not serializable by default json code."""
 
